@@ -304,6 +304,23 @@ def run(ctx, prog):
     if not found:
         ctx.undecided('C20-D5', f'{chk.key}::writer branch', 'branch constructing the writer not recognised', chk.where())
     d6(ctx, prog, ci, inline)
+    # the handler that swallows the user function's exceptions must not cover the writer: a writer failure (output that already
+    # holds traces, disk error) would be counted as a rejected trace and run() would return an output that is not the accepted traces
+    pm_ = astutil.parents(run_f.node)
+    cur = pm_.get(wr[0])
+    covered = None
+    child = wr[0]
+    while cur is not None and cur is not run_f.node:
+        if isinstance(cur, ast.Try) and any(child is b or any(child is x for x in ast.walk(b)) for b in cur.body):
+            for h in cur.handlers:
+                names = {norm(x) for x in (h.type.elts if isinstance(h.type, ast.Tuple) else [h.type])} if h.type is not None else {'BaseException'}
+                if names & {'Exception', 'BaseException'} and not any(isinstance(x, ast.Raise) for x in ast.walk(h)):
+                    covered = h
+        child = cur
+        cur = pm_.get(cur)
+    ctx.check(covered is None, 'C20-D3', f'{run_f.key}::writer outside the swallowing handler', 'the write of an accepted trace sits inside the try whose `except Exception` swallows the user function\'s failures: '
+              'a failure of the writer is counted as a rejected trace and run() returns normally with an output that is not the accepted traces', 'a writer failure propagates (the swallowing handler covers the user function only)',
+              run_f.where(wr[0]))
     ctx.floor('iteration paths', len(paths), 4)
 
 
